@@ -1,5 +1,7 @@
 SPECIFICATION Spec
 CONSTANTS
   Emit = TRUE
+  Mode = "all"
+  Stride = 1
 INVARIANTS Holds EmitDone
 CHECK_DEADLOCK FALSE
